@@ -191,7 +191,13 @@ def main(ck):
                               "engine/immutable/verif_export_c09.go (thin wrappers)",
                               "coq/C07/ModelStats.v int_build (imported by C09/Corr.v for the cross-check of integer column statistics)"]
     ck.coq_audit(["C09"])
-    ok = ck.coq_build(["C09/Corr.vo", "C09/Proofs.vo", "C09/ListSpec.vo", "C09/ChunkProofs.vo", "C09/BucketProofs.vo"])
+    # the cross-check imports C07's models, which need C07's generated constants file; a scratch tree's private Coq tree
+    # does not carry generated files of other properties: seed it (only when absent) from the main tree
+    c07gen = os.path.join(vlib.COQ, "C07", "Gen_Consts.v")
+    if not os.path.exists(c07gen) and os.path.exists(os.path.join(vlib.COQSRC, "C07", "Gen_Consts.v")):
+        os.makedirs(os.path.dirname(c07gen), exist_ok=True)
+        open(c07gen, "w").write(open(os.path.join(vlib.COQSRC, "C07", "Gen_Consts.v")).read())
+    ok = ck.coq_build(["C09/CrossC07.vo", "C09/Corr.vo", "C09/Proofs.vo", "C09/ListSpec.vo", "C09/ChunkProofs.vo", "C09/BucketProofs.vo"])
     if ok:
         ck.coq_props(["C09/Props.v", "C09/Refuted.v"])
     binp = ck.go_build("./cmd/c09", "c09")
@@ -267,7 +273,7 @@ def main(ck):
         cshard = 60
         for a in range(0, len(chunks), cshard):
             txt = (HDR + "Definition cases : list chunk_case := [\n%s\n].\n"
-                   "Definition M := Eval vm_compute in flat_chunks cases.\nPrint M.\n") % ";\n".join(chunk_term(hs[hi]["chunks"][k]) for hi, k in chunks[a:a + cshard])
+                   "From OG Require Import C09.CrossC07.\nDefinition M := Eval vm_compute in flat_chunks7 cases.\nPrint M.\n") % ";\n".join(chunk_term(hs[hi]["chunks"][k]) for hi, k in chunks[a:a + cshard])
             files.append(("c09chunks%d" % (a // cshard), txt))
         ncs = len(files) - ngs
         # canary: 20 copies of a chunk whose first stored statistic is off by one MUST come back as 20 (copy, 1, 0) entries
